@@ -34,7 +34,19 @@ RULE = (
     "probe leaves in a local-class store (empty or partially written 0o644 file under the final path of a pool "
     "file/directory object not yet in the store); store objects are long-lived across the history. A planted "
     "leftover is tolerated only while untouched, unprotected and not vouched for by the state - later rules "
-    "may remove or correctly replace it, never keep it 0o444 / state-recorded. Oracle after EVERY rule, on every store, from os.walk + hashlib: each "
+    "may remove or correctly replace it, never keep it 0o444 / state-recorded. Untrusted sources: tamper "
+    "(also drawn inside xfer_untrusted, aimed at the ids about to be requested) lets the harness replace one "
+    "object of L or G by bytes that no longer hash to its name - a '.dir' object stays a loadable well-formed "
+    "listing (re-serialised with other whitespace / entry order, trailing newline, last entry dropped), a file "
+    "object gets a flipped bit / loses or gains a byte; new inode, mode kept (0o444 in L, so the store goes on "
+    "trusting it) - as bit-rot or a re-serialising remote would; xfer_untrusted then runs transfer(src, dest, ids "
+    "(directory objects weighted x3), shallow/expanded, hardlink or copy, verify=drawn, forced True whenever the "
+    "source holds a tampered object), optionally with cache_odb= a separate harness-built store holding a "
+    "byte-identical or re-serialised copy of each requested '.dir' object. A tampered object is excused only in "
+    "the store where the harness did it and only while it holds exactly the harness's bytes (gone / correctly "
+    "replaced = healed); every other store - in particular the DESTINATION of a verifying transfer - must pass "
+    "the full audit; from a source with an outstanding tampered object the ordinary xfer runs with verify=True "
+    "and without the harness's raced second delivery, and migrate is not run. Oracle after EVERY rule, on every store, from os.walk + hashlib: each "
     "object's name is the store-algorithm digest of its bytes (+'.dir' iff it is a directory object, whose "
     "bytes must be a canonical listing), no stray file, no listing filed without the '.dir' suffix, every "
     "object of a local-class store has mode exactly 0o444. Non-trivial = a history in which some store was "
@@ -51,6 +63,15 @@ ASSUMPTIONS = [
     "md5-dos2unix is per read chunk for objects larger than 1 MiB (sniff the first 512 bytes of each 1 MiB "
     "chunk, normalise CRLF inside text chunks): the legacy store's audit, honest ids and leftover names use that "
     "chunk-wise reference (own module); the md5 / sha256 audits are plain hashlib",
+    "verify=False copies bytes as they are: nothing is asserted about a non-verifying flow out of a store the "
+    "harness tampered with (such flows are not generated); with verify=True the destination must never retain a "
+    "mismatching object (HashFileDB.add hashes what it filed, removes and reports a mismatch); a local store "
+    "trusts a 0o444 object without re-hashing it, so the tampered source copy itself may stay and even be "
+    "state-recorded there",
+    "cache_odb is only a place the library may read directory listings from; whatever it holds, the bytes filed "
+    "in the destination are judged against their name",
+    "tampered listings stay well-formed (list of {md5, relpath} entries) - a malformed or unparsable '.dir' "
+    "object in the source is outside this check",
     "files named like dvc-objects temp files (.<token>.tmp) are counted, not judged",
     "hashlib, the reference text sniffing rule and the hand-written listing serialiser are the trusted base",
 ]
@@ -423,7 +444,7 @@ class C01Machine(TraceMachine):
 
     @rule(src=st.integers(0, 1), picks=st.lists(st.integers(0, 40), min_size=1, max_size=4),
           shallow=st.booleans(), hardlink=st.booleans(), verify=st.booleans(),
-          rot=st.lists(st.fixed_dictionaries({"k": st.integers(0, 3), "how": _HOW}), max_size=2),
+          rot=st.lists(st.fixed_dictionaries({"k": st.sampled_from([0, 0, 1, 2, 3]), "how": _HOW}), max_size=2),
           cache=st.one_of(st.none(), st.none(), st.sampled_from(["intact", *_DIR_HOW])))
     @traced
     def xfer_untrusted(self, src, picks, shallow, hardlink, verify, rot, cache=None):
@@ -440,7 +461,9 @@ class C01Machine(TraceMachine):
         have = sorted(self.ids[src])
         if not have:
             return
-        oids = sorted({have[i % len(have)] for i in picks})
+        # directory objects are the rarer kind: they weigh three times in the draw and sort first for `rot`
+        have = [o for o in have if o.endswith(".dir")] * 2 + have
+        oids = sorted({have[i % len(have)] for i in picks}, key=lambda o: (not o.endswith(".dir"), o))
         for r in rot:
             oid = oids[r["k"] % len(oids)]
             if self._tamper(src, oid, r["how"]):
